@@ -174,6 +174,8 @@ def run(check, an: Analysis):
                                'producers append to the pending deque')
     from . import c01
     c01.check_drain(check, an, an.callee(LOOP, '_run_events'), 'F')
+    # both wait-queue backends are the same queue: smallest key, its own bucket, removed
+    c01._check_waitqueues(check, an, 'S')
     for qn in (HQ, SD):
         push = an.method(qn, 'push')
         ops = sorted({n.func.attr for n in ast.walk(push.node) if isinstance(n, ast.Call)
